@@ -516,6 +516,8 @@ class QasmProcessor:
                     qubit_lst = self.qubit_regs[qubit_name]
                     if qubit_ind < len(qubit_lst):
                         qubit = qubit_lst[0] + qubit_ind
+                    else:
+                        raise ValueError("QASM: qubit index out of bounds")
                 else:
                     qubit_name = reg
                     qubit = self.qubit_regs[qubit_name]
